@@ -371,6 +371,9 @@ def _run_proc(cmd, batch_path, timeout, env=None, case_timeout=None):
     return results, None, ("ok",)
 
 
+# thorough-tier workload multiplier: the thorough counts in the checks are multiplied by this (1 = about 1-5 minutes per
+# check on 16 cores, 3 = the default, about 5-15 minutes per check)
+TS = int(os.environ.get("VERIF_THOROUGH_SCALE", "3"))
 ABORT_CAP = int(os.environ.get("VERIF_ABORT_CAP", "48"))
 
 
